@@ -237,12 +237,19 @@ def handle (bundled : List Bundled) (line : Json) : Json :=
       let allow := boolD c "allow"
       let attrs0 := (arrD c "attrs").map parseAttr
       let attrs := if boolD c "xml" then attrs0.map (parsed natOps) else attrs0
-      let m := listToLocal natOps acs allow attrs
       let labels := attrs.map (recvLabel acs allow)
       let iv := (parseLocalRes impl).getD .raised
-      let okM := C17Spec.specToLocal natOps eff allow attrs m
-      let okI := C17Spec.specToLocal natOps eff allow attrs iv
-      let why := C17Spec.whyToLocal natOps eff allow attrs iv
+      -- "groups": the attribute statements (lists of indices into "attrs") in the order get_identity reads them
+      let groups : Option (List (List (WireAttr Nat))) := (arr? c "groups").map fun gs =>
+        gs.map fun g => (asArr g).filterMap fun j => (asNat? j).bind fun i => attrs[i]?
+      let (m, okM, okI, why) := match groups with
+        | some stmts =>
+          (getIdentity natOps acs allow stmts [], C17Spec.specIdentity natOps eff allow stmts (getIdentity natOps acs allow stmts []),
+           C17Spec.specIdentity natOps eff allow stmts iv, C17Spec.whyIdentity natOps eff allow stmts iv)
+        | none =>
+          (listToLocal natOps acs allow attrs, C17Spec.specToLocal natOps eff allow attrs (listToLocal natOps acs allow attrs),
+           C17Spec.specToLocal natOps eff allow attrs iv, C17Spec.whyToLocal natOps eff allow attrs iv)
+      let labels := if (groups.map (·.length)).getD 1 > 1 then labels.map (fun l => l ++ "/multi-statement") else labels
       Json.mkObj [("model", localResToJson (some m)), ("path", summarise labels "recv/empty-statement"), ("paths", jstrs (dedup labels)),
         ("spec_model", okM), ("spec_impl", okI), ("why", jarr (why.map fun (k, n) => jarr [Json.str k, Json.str (dec n)]))]
     | "roundtrip" =>
